@@ -5,7 +5,8 @@
    text_roundtrip c tab m = read_text c (print_text c m); [tab] = the float table (bits, repr text) of m.
    norm c m = m without what the text does not carry (volatile flags, order of phi inputs).
    l_instr = __str__ of one instruction as layout tokens, toks = its tokens (white space dropped). *)
-From PV Require Import Lib.Py Lib.Val Spec.IRSyntax Model.IrText Proofs.C15_irtext Gen.c15_corpus.
+From PV Require Import Lib.Py Lib.Val Spec.IRSyntax Model.IrText Proofs.C15_irtext Proofs.C15_lexer Proofs.C15_layout
+  Proofs.C15_module Proofs.C15_resolve Proofs.C15_compose Gen.c15_corpus.
 From Coq Require Import String List.
 Import ListNotations.
 
@@ -134,6 +135,47 @@ Theorem c15_function_roundtrip : forall c N f rest,
   rfunc_ok c N f -> parse_declaration c N (toks (l_func f) ++ rest) = Ok (RFunc f, rest).
 Proof. exact func_roundtrip. Qed.
 Print Assumptions c15_function_roundtrip.
+
+(* ---- unbounded, layer by layer (any configuration c unless stated) *)
+(* lexer: a layout whose tokens are well-formed spellings separated as tokenize needs is lexed to its tokens *)
+Theorem c15_lex_render : forall c l, lay_ok c l = true -> lex c (render l) = Ok (toks l).
+Proof. exact lex_render. Qed.
+Print Assumptions c15_lex_render.
+(* every layout the printer produces from lexable names / spellings satisfies that side condition *)
+Theorem c15_layout_lexable : forall c r, rlex_ok c r = true -> lay_ok c (layout r) = true.
+Proof. exact layout_lexable. Qed.
+Print Assumptions c15_layout_lexable.
+Theorem c15_print_lexes : forall c fr fp m, printable c fr fp m = true ->
+  lex c (print_text c fr m) = Ok (print_tokens c fr m).
+Proof. exact print_lexes. Qed.
+Print Assumptions c15_print_lexes.
+(* parser, module level (externals, variables with initial values, functions), with the loop bound of [parse] *)
+Theorem c15_module_parse : forall c fr fp m, printable c fr fp m = true ->
+  parse c (print_tokens c fr m) = Ok (erase fr c m).
+Proof. exact module_parse_printable. Qed.
+Print Assumptions c15_module_parse.
+(* name resolution incl. forward references (placeholders + Value.replace_by), for every configuration in which
+   placeholders take the expected type and replace_use is repaired (= the current code + fixes/C15-*.diff) *)
+Theorem c15_resolve_roundtrip : forall c fp fr m,
+  fx_fwd c = true -> fx_ru_generic c = true -> fx_ru_phi c = true -> fx_ru_call c = true ->
+  wf_modul m = true -> printable c fr fp m = true ->
+  resolve c fp (erase fr c m) = Ok (norm c m).
+Proof. exact resolve_roundtrip. Qed.
+Print Assumptions c15_resolve_roundtrip.
+(* the composition: the characters printed for a well-formed printable module are read back to its normal form,
+   which prints identically *)
+Theorem c15_roundtrip : forall c fr fp m,
+  fx_fwd c = true -> fx_ru_generic c = true -> fx_ru_phi c = true -> fx_ru_call c = true ->
+  wf_modul m = true -> printable c fr fp m = true ->
+  read_text c fp (print_text c fr m) = Ok (norm c m) /\
+  print_text c fr (norm c m) = print_text c fr m /\ print_tokens c fr (norm c m) = print_tokens c fr m.
+Proof. exact text_roundtrip_all. Qed.
+Print Assumptions c15_roundtrip.
+Theorem c15_roundtrip_fixed : forall fr fp m, wf_modul m = true -> printable tcfg_fixed fr fp m = true ->
+  read_text tcfg_fixed fp (print_text tcfg_fixed fr m) = Ok (norm tcfg_fixed m) /\
+  print_text tcfg_fixed fr (norm tcfg_fixed m) = print_text tcfg_fixed fr m.
+Proof. intros fr fp m Hw Hp. destruct (text_roundtrip_all tcfg_fixed fr fp m eq_refl eq_refl eq_refl eq_refl Hw Hp) as (A & B & _). now split. Qed.
+Print Assumptions c15_roundtrip_fixed.
 
 (* ---- the repaired code, whole modules (bounded: the generated corpus): the text is lexed to the printed
         tokens, read back to the normal form of the module, and prints identically *)
